@@ -698,3 +698,138 @@ Fixpoint vcr_loop (preserve : bool) (v : vvars) (xs : list xchg) : list ventry :
   end.
 
 Definition vcr_entry (preserve : bool) (x : xchg) : ventry := snd (vcr_step preserve vvars0 x).
+
+(* ------------------------------------------------------------------ *)
+(* Part 5: the LIFECYCLE of the writer thread up to process exit        *)
+(* (added after seeded regression C16_c_daemon_writer_thread)           *)
+(*                                                                      *)
+(* cassettes.py:42-69 and executor.py:136-165.  The main thread puts    *)
+(* Initialize (start), one Process per ScenarioFinished (handle_event), *)
+(* Finalize (shutdown) on the queue and then joins the writer with      *)
+(* WRITER_WORKER_JOIN_TIMEOUT: the join may return while the writer is  *)
+(* still working on its backlog.  Then the CLI ends with sys.exit:      *)
+(* Click tears its context down (file handles that Click opened for     *)
+(* --report-vcr-path / --report-har-path are CLOSED there), and the     *)
+(* interpreter WAITS for non-daemon threads and KILLS daemon threads.   *)
+(* The writer takes one queue item at a time and may be arbitrarily     *)
+(* slow: the interleaving is a schedule chosen by an adversary.         *)
+(* ------------------------------------------------------------------ *)
+Record lconf := {
+  lc_daemon : bool;        (* threading.Thread(..., daemon=...) of CassetteWriter.__post_init__ *)
+  lc_click_owned : bool    (* the report file is a click.File handle (--report-*-path) and not a LazyFile
+                              made by ReportConfig.get_path (--report / --report-dir) *)
+}.
+(* the code as it is: a non-daemon thread (cassettes.py:54), joined for 1 second (:28, :69) *)
+Definition writer_thread_daemon : bool := false.
+Definition join_timeout_ms : N := 1000.
+Definition lconf_report_dir : lconf := {| lc_daemon := writer_thread_daemon; lc_click_owned := false |}.
+Definition lconf_report_path : lconf := {| lc_daemon := writer_thread_daemon; lc_click_owned := true |}.
+(* region: the path kinds for which the report survives a join that timed out *)
+Definition report_dir_owned (c : lconf) : bool := negb (lc_click_owned c).
+
+Inductive lwriter := LRunning | LEnded (e : wend) | LKilled.     (* LKilled: a daemon thread at interpreter exit *)
+Inductive mphase := MRun | MTeardown | MExited.
+(* MRun: start / handle_event / shutdown up to the join; MTeardown: the join has returned (the other handlers
+   shut down, the summary is printed, sys.exit is on its way); MExited: the process is gone *)
+Inductive sstep := SMain | SWriter | STimeout.
+
+Record lstate := {
+  l_todo : list qmsg;             (* what the main thread will still put on the queue *)
+  l_phase : mphase;
+  l_queue : list qmsg;            (* put and not yet taken by the writer *)
+  l_out : list (N * bool);        (* entries in the file *)
+  l_writer : lwriter;
+  l_open : bool                   (* the file handle is open *)
+}.
+
+(* the writer takes ONE item (the body of the while loop of vcr_writer / har_writer), file handle open *)
+Definition writer_item (w : wconf) (m : qmsg) (out : list (N * bool)) : list (N * bool) * option wend :=
+  match m with
+  | QInit => (out, None)
+  | QProcess ints => let '(out1, ok) := write_entries_gen entry_raises w ints out in (out1, if ok then None else Some Died)
+  | QFinalize => (out, Some Closed)
+  end.
+(* the same after Click has closed the handle: every write raises ValueError (I/O operation on closed file).
+   VCR: Initialize writes the preamble; an entry starts with a write; Finalize only calls path.close(), which is harmless.
+   HAR: Initialize is ignored; add_entry writes; Finalize leaves the with block, whose close writes the closing brackets *)
+Definition writer_item_closed (w : wconf) (m : qmsg) (out : list (N * bool)) : list (N * bool) * option wend :=
+  match m, w_fmt w with
+  | QInit, VCR => (out, Some Died)
+  | QInit, HAR => (out, None)
+  | QProcess [], _ => (out, None)
+  | QProcess (_ :: _), _ => (out, Some Died)
+  | QFinalize, VCR => (out, Some Closed)
+  | QFinalize, HAR => (out, Some Died)
+  end.
+Definition writer_take (open : bool) := if open then writer_item else writer_item_closed.
+
+(* threading._shutdown joins a non-daemon writer without a timeout: it runs until it ends; None = it blocks in
+   queue.get() for ever (no Finalize was put: the process would hang) *)
+Fixpoint drain (open : bool) (w : wconf) (q : list qmsg) (out : list (N * bool)) : list (N * bool) * option wend :=
+  match q with
+  | [] => (out, None)
+  | m :: q' => match writer_take open w m out with
+               | (out1, None) => drain open w q' out1
+               | (out1, Some e) => (out1, Some e)
+               end
+  end.
+
+(* sys.exit: context teardown (Click closes the handles it owns), then interpreter exit *)
+Definition exit_step (c : lconf) (w : wconf) (st : lstate) : lstate :=
+  let open1 := l_open st && negb (lc_click_owned c) in
+  match l_writer st with
+  | LRunning =>
+    if lc_daemon c then
+      {| l_todo := l_todo st; l_phase := MExited; l_queue := l_queue st; l_out := l_out st; l_writer := LKilled; l_open := open1 |}
+    else
+      match drain open1 w (l_queue st) (l_out st) with
+      | (out1, Some e) => {| l_todo := l_todo st; l_phase := MExited; l_queue := []; l_out := out1; l_writer := LEnded e; l_open := open1 |}
+      | (_, None) => st
+      end
+  | _ => {| l_todo := l_todo st; l_phase := MExited; l_queue := l_queue st; l_out := l_out st; l_writer := l_writer st; l_open := open1 |}
+  end.
+
+Definition set_phase (p : mphase) (st : lstate) : lstate :=
+  {| l_todo := l_todo st; l_phase := p; l_queue := l_queue st; l_out := l_out st; l_writer := l_writer st; l_open := l_open st |}.
+
+(* a step that is not enabled leaves the state as it is (the thread is blocked / nothing to time out) *)
+Definition lstep (c : lconf) (w : wconf) (st : lstate) (s : sstep) : lstate :=
+  match s with
+  | SWriter =>
+    match l_writer st, l_queue st with
+    | LRunning, m :: q' =>
+      let '(out1, e) := writer_take (l_open st) w m (l_out st) in
+      {| l_todo := l_todo st; l_phase := l_phase st; l_queue := q'; l_out := out1;
+         l_writer := match e with None => LRunning | Some e' => LEnded e' end; l_open := l_open st |}
+    | _, _ => st
+    end
+  | SMain =>
+    match l_phase st, l_todo st with
+    | MRun, m :: t =>                                        (* queue.put *)
+      {| l_todo := t; l_phase := MRun; l_queue := l_queue st ++ [m]; l_out := l_out st; l_writer := l_writer st; l_open := l_open st |}
+    | MRun, [] =>                                            (* worker.join returns because the thread has ended *)
+      match l_writer st with LRunning => st | _ => set_phase MTeardown st end
+    | MTeardown, _ => exit_step c w st
+    | MExited, _ => st
+    end
+  | STimeout =>                                              (* worker.join(timeout) returns although the thread is alive *)
+    match l_phase st, l_todo st with
+    | MRun, [] => set_phase MTeardown st
+    | _, _ => st
+    end
+  end.
+
+Definition linit (h : list cevent) : lstate :=
+  {| l_todo := cassette_queue h; l_phase := MRun; l_queue := []; l_out := []; l_writer := LRunning; l_open := true |}.
+Definition lrun (c : lconf) (w : wconf) (h : list cevent) (sched : list sstep) : lstate :=
+  fold_left (lstep c w) sched (linit h).
+(* what a reader of the report finds after the process has gone *)
+Definition lresult (st : lstate) : list (N * bool) * lwriter := (l_out st, l_writer st).
+Definition lexited (st : lstate) : bool := match l_phase st with MExited => true | _ => false end.
+
+Definition is_timeout (s : sstep) : bool := match s with STimeout => true | _ => false end.
+(* region for every configuration: no join ever timed out *)
+Definition join_never_timed_out (sched : list sstep) : bool := forallb (fun s => negb (is_timeout s)) sched.
+(* the worst schedule: everything is put, the writer has not been scheduled once, the join times out, exit *)
+Definition sched_full_backlog (h : list cevent) : list sstep :=
+  map (fun _ => SMain) (cassette_queue h) ++ [STimeout; SMain].
